@@ -8,3 +8,5 @@ pub fn min_usize(a: usize, b: usize) -> (r: usize) ensures r == (if a <= b { a }
 pub fn u8_from_bool(b: bool) -> (r: u8) ensures r == (if b { 1u8 } else { 0u8 }) { unimplemented!() }
 }
 pub use shim_std_int::*;
+pub assume_specification<T, E> [ std::result::Result::<T, E>::unwrap_or ](r: std::result::Result<T, E>, default: T) -> (out: T)
+	ensures out == (match r { Ok(x) => x, Err(_) => default });
